@@ -2,6 +2,7 @@
 Helper lemmas for C10: prefix stripping, longest common prefix, `lookup` after `put`.
 -/
 import NeoModel.Model.Mpt
+set_option linter.unusedSimpArgs false
 namespace NeoModel.Mpt
 
 theorem stripPre_eq_some {k p r : Path} : stripPre k p = some r ↔ p = k ++ r := by
@@ -222,5 +223,125 @@ theorem lookup_put (t : Node) (p : Path) (v : Val) (q : Path) :
           have := stripPre_eq_some.mp hs
           subst this
           simp [lookup_splitB _ _ _ _ _ _ hne]
+
+
+theorem mem_kids {cs : Nib → Node} {i : Nib} : i ∈ kids cs ↔ (cs i).isEmpty = false := by
+  simp [kids, List.mem_filter, List.mem_finRange]
+
+theorem isEmpty_iff {n : Node} : n.isEmpty = true ↔ n = .empty := by
+  cases n <;> simp [Node.isEmpty]
+
+theorem lookup_of_isEmpty {n : Node} (h : n.isEmpty = true) (q : Path) : lookup n q = none := by
+  rw [isEmpty_iff.mp h]; simp [lookup]
+
+theorem kids_nil {cs : Nib → Node} (h : kids cs = []) (i : Nib) : cs i = .empty := by
+  have : i ∉ kids cs := by rw [h]; simp
+  rw [mem_kids] at this
+  cases hc : (cs i).isEmpty with
+  | true => exact isEmpty_iff.mp hc
+  | false => exact absurd hc this
+
+theorem kids_single {cs : Nib → Node} {i : Nib} (h : kids cs = [i]) (j : Nib) (hj : j ≠ i) : cs j = .empty := by
+  have : j ∉ kids cs := by rw [h]; simp [hj]
+  rw [mem_kids] at this
+  cases hc : (cs j).isEmpty with
+  | true => exact isEmpty_iff.mp hc
+  | false => exact absurd hc this
+
+theorem kids_single_ne {cs : Nib → Node} {i : Nib} (h : kids cs = [i]) : (cs i).isEmpty = false := by
+  have : i ∈ kids cs := by rw [h]; simp
+  exact mem_kids.mp this
+
+theorem lookup_collapseBranch (cs : Nib → Node) (v : Option Val) (q : Path) :
+    lookup (collapseBranch cs v) q = lookup (.branch cs v) q := by
+  unfold collapseBranch
+  split
+  · rename_i w hk
+    cases q with
+    | nil => simp [lookup]
+    | cons j q => simp [lookup, kids_nil hk j]
+  · rename_i i hk
+    have hother := kids_single hk
+    cases q with
+    | nil =>
+      split <;> simp [lookup_ext, stripPre, lookup]
+    | cons j q =>
+      by_cases hj : j = i
+      · subst hj
+        split
+        · rename_i k n hc
+          rw [show (j :: k) = [j] ++ k from rfl, lookup_ext_append]
+          simp [stripPre, lookup, hc]
+        · simp [lookup_ext, stripPre, lookup]
+      · have : ¬ i = j := fun e => hj e.symm
+        split <;> simp [lookup_ext, stripPre, lookup, hother j hj, this]
+  · rename_i hk
+    cases q with
+    | nil => simp [lookup_ext, stripPre, lookup]
+    | cons j q =>
+      simp only [lookup_ext, lookup, kids_nil hk j]
+      cases stripPre [0] (j :: q) <;> simp [lookup]
+  · rfl
+
+/-- C10.1: `delete` removes exactly the key deleted. -/
+theorem lookup_delete (t : Node) (p q : Path) :
+    lookup (delete t p) q = if q = p then none else lookup t q := by
+  induction t generalizing p q with
+  | empty => simp [delete, lookup]
+  | leaf w =>
+    cases p with
+    | nil => cases q <;> simp [delete, lookup]
+    | cons i p => cases q <;> simp [delete, lookup]
+  | branch cs w ih =>
+    cases p with
+    | nil =>
+      simp only [delete, lookup_collapseBranch]
+      cases q <;> simp [lookup]
+    | cons i p =>
+      simp only [delete, lookup_collapseBranch]
+      cases q with
+      | nil => simp [lookup]
+      | cons j q =>
+        simp only [lookup]
+        by_cases hj : j = i
+        · subst hj; simp [upd_same, ih]
+        · have : (j :: q) ≠ (i :: p) := by intro e; cases e; exact hj rfl
+          simp [upd_other _ _ _ _ hj, this]
+  | ext k n ih =>
+    simp only [delete]
+    cases hs : stripPre k p with
+    | none =>
+      have h := stripPre_eq_none.mp hs
+      simp only [lookup_ext]
+      by_cases hq : q = p
+      · subst hq; simp [hs]
+      · simp [hq]
+    | some r =>
+      have hp := stripPre_eq_some.mp hs
+      subst hp
+      have key : ∀ m, lookup m = lookup (delete n r) →
+          lookup (.ext k m) q = if q = k ++ r then none else lookup (.ext k n) q := by
+        intro m hm
+        simp only [lookup_ext]
+        cases hs2 : stripPre k q with
+        | none =>
+          simp
+        | some r2 =>
+          have := stripPre_eq_some.mp hs2
+          subst this
+          simp [hm, ih]
+      simp only
+      split
+      · rename_i k2 n2 hd
+        have := key (.ext k2 n2) (by rw [hd])
+        rw [← this]
+        rw [lookup_ext_append, lookup_ext]
+      · rename_i hd
+        have := key .empty (by rw [hd])
+        rw [← this]
+        simp only [lookup_ext, lookup]
+        cases stripPre k q <;> simp [lookup]
+      · rename_i m h1 h2
+        exact key _ rfl
 
 end NeoModel.Mpt
